@@ -192,6 +192,71 @@ func defNamesCase(names []string, cfg gen.Config) *nameCase {
 }
 
 var avoidEmptyDef func() bool
+var avoidInProgressCollision func() bool
+
+// chainedDefNamesCase: definitions whose names collide after normalisation and
+// that refer to each other in a chain (def i has a property referring to def
+// i+1), so that a colliding name is requested while another declaration of the
+// same normalised name is still being generated.
+func chainedDefNamesCase(names []string, cfg gen.Config) *nameCase {
+	if avoidEmptyDef != nil {
+		var ok []string
+		for _, n := range names {
+			if n == "" && avoidEmptyDef() {
+				continue
+			}
+			ok = append(ok, n)
+		}
+		names = ok
+	}
+	tailOnly := avoidInProgressCollision != nil && avoidInProgressCollision()
+	if tailOnly {
+		// known finding: a colliding name requested while the unsuffixed declaration is still
+		// being generated is handed out twice. Definitions are generated in sorted order, so
+		// with the chain running along that order and the first definition left without a
+		// reference, the unsuffixed name is complete before any collision is requested.
+		names = append([]string{}, names...)
+		sort.Strings(names)
+	}
+	if len(names) < 2 {
+		return siblingNamesCase([]string{"solo"}, cfg)
+	}
+	root := &model.Node{Kind: model.KObject}
+	f := &model.File{RelPath: "prog.json", ID: "https://example.com/prog", Root: root}
+	nodes := make([]*model.Node, len(names))
+	for i := range names {
+		nodes[i] = &model.Node{Kind: model.KObject, Props: []model.Prop{{Name: fmt.Sprintf("f%d", i), Node: &model.Node{Kind: model.KString}}}}
+	}
+	// innermost first, so the expectation can be nested
+	var doc jv.V
+	for i := len(names) - 1; i >= 0; i-- {
+		v := jv.ObjV(jv.Field(fmt.Sprintf("f%d", i), jv.StrV(fmt.Sprintf("v%d", i))))
+		if i+1 < len(names) && !(tailOnly && i == 0) {
+			nodes[i].Props = append(nodes[i].Props, model.Prop{Name: "next", Node: &model.Node{Kind: model.KRef, Ref: "#/$defs/" + names[i+1], Target: nodes[i+1]}})
+			v.O = append(v.O, jv.KV{K: "next", V: doc})
+		}
+		doc = v
+	}
+	headIdx := 0
+	if tailOnly {
+		headIdx = 1
+		// doc currently describes names[0] (no next); rebuild for names[1]
+		doc = jv.V{}
+		for i := len(names) - 1; i >= 1; i-- {
+			v := jv.ObjV(jv.Field(fmt.Sprintf("f%d", i), jv.StrV(fmt.Sprintf("v%d", i))))
+			if i+1 < len(names) {
+				v.O = append(v.O, jv.KV{K: "next", V: doc})
+			}
+			doc = v
+		}
+	}
+	for i, nm := range names {
+		f.Defs = append(f.Defs, model.Def{Name: nm, Node: nodes[i]})
+	}
+	root.Props = append(root.Props, model.Prop{Name: "head", Node: &model.Node{Kind: model.KRef, Ref: "#/$defs/" + names[headIdx], Target: nodes[headIdx]}})
+	full := jv.ObjV(jv.Field("head", doc))
+	return &nameCase{cs: caseOf(cfg, []string{f.RelPath}, f), file: f, names: names, kind: "defs", doc: full, exp: docs.Expect(root, full)}
+}
 
 func titleCase(title string, cfg gen.Config) *nameCase {
 	cfg.StructNameFromTitle = true
@@ -307,6 +372,7 @@ func staticNameCheck(nc *nameCase) (status string, problems []string, src string
 
 var collisionSets = [][]string{
 	{"foo_bar", "fooBar", "FooBar", "foo-bar", "foo bar"},
+	{"foo_bar", "fooBar", "FooBar", "foo-bar", "foo bar", "foo.bar", "foo/bar", "Foo_Bar"},
 	{"a", "A"},
 	{"x1", "x_1", "x-1"},
 	{"id", "ID", "Id", "iD"},
@@ -319,6 +385,13 @@ var collisionSets = [][]string{
 	{"foo", "foo_2", "Foo_2", "FOO"},
 	{"AdditionalProperties", "additionalProperties"},
 	{"a.b", "a/b", "a b", "aB"},
+}
+
+// collision sets whose members all normalise to one and the same identifier
+var uniformSets = map[string]bool{
+	"foo_bar|fooBar": true, // both FooBar sets start like this
+	"x1|x_1":         true,
+	"a.b|a/b":        true,
 }
 
 func TestC14(t *testing.T) {
@@ -357,6 +430,13 @@ func TestC14(t *testing.T) {
 	avoidEmptyDef = func() bool {
 		if c.Avoid("names.empty_definition_name") {
 			c.ExcludedMap()["names.empty_definition_name"]++
+			return true
+		}
+		return false
+	}
+	avoidInProgressCollision = func() bool {
+		if c.Avoid("names.collision_while_unsuffixed_in_progress") {
+			c.ExcludedMap()["names.collision_while_unsuffixed_in_progress"]++
 			return true
 		}
 		return false
@@ -463,6 +543,26 @@ func TestC14(t *testing.T) {
 		}
 		handle(siblingNamesCase(ok, cfg0))
 		c.Count("siblings.collision_sets")
+		// the same sets as definition names: flat, and chained through references in both directions
+		var dn []string
+		for _, n := range set {
+			if n != "" || !c.Avoid("names.empty_definition_name") {
+				dn = append(dn, n)
+			}
+		}
+		if len(dn) >= 2 {
+			handle(defNamesCase(dn, cfg0))
+			// chains: under the open finding only for sets whose members all normalise to ONE identifier
+			if uniformSets[set[0]+"|"+set[1]] || !avoidInProgressCollision() {
+				handle(chainedDefNamesCase(dn, cfg0))
+				rev := append([]string{}, dn...)
+				for i, j := 0, len(rev)-1; i < j; i, j = i+1, j-1 {
+					rev[i], rev[j] = rev[j], rev[i]
+				}
+				handle(chainedDefNamesCase(rev, cfg0))
+				c.Count("defs.chained_collision_sets")
+			}
+		}
 	}
 	c.Sample(map[string]any{"enumerated_examples": mine[:min(len(mine), 12)], "collision_sets": collisionSets[:4]})
 
@@ -524,7 +624,11 @@ func TestC14(t *testing.T) {
 		case 1:
 			handle(nestedNamesCase(names, cfg))
 		default:
-			handle(defNamesCase(names, cfg))
+			if rapid.Bool().Draw(rt, "chained") && len(names) >= 2 && !avoidInProgressCollision() {
+				handle(chainedDefNamesCase(names, cfg))
+			} else {
+				handle(defNamesCase(names, cfg))
+			}
 		}
 	})
 	if res.Failed {
